@@ -177,6 +177,25 @@ def wave3():
         case("foo", [fn("z0", {}, BAZ), fn("f0", {"a": OTHER})], "w5:no parameters, own class, next to another function"),
         case("zed.a", [fn("z0", {}, T(Z, ZA, ZAB))], "w5:no parameters, package chain"),
     ]
+    # --- wave 7: a functools.cached_property method (a plain method for MonkeyType: no decorator may appear that the stub
+    #     does not provide); positional-only + *args + keyword-only + **kwargs signatures (the stub must parse and every
+    #     annotation resolve); a module path with a component called `typing` ---
+    SHAPE = C("zed.typing", "Shape")
+    out += [
+        case("foo", [fn("K.cp0", {}, BAZ)], "w7:cached_property method"),
+        case("foo", [fn("K.cp0", {}, L(QUX)), fn("K.m0", {"a": INT}, STR)], "w7:cached_property method"),
+        case("utils", [fn("K.cp0", {}, INT), fn("f0", {"a": A_})], "w7:cached_property method"),
+        case("foo", [fn("p3", {"a": INT, "rest": STR, "k": BOOL}, STR)], "w7:positional-only, *args, keyword-only"),
+        case("foo", [fn("p3", {"a": A_, "rest": B, "k": BAZ}, L(QUX))], "w7:positional-only, *args, keyword-only"),
+        case("foo", [fn("p3", {"a": INT}, None)], "w7:positional-only, *args, keyword-only, one annotated"),
+        case("utils", [fn("p5", {"a": INT, "b": L(A_), "rest": STR, "k": BAZ, "kw": U(INT, NONE)}, D(STR, B))], "w7:all parameter kinds"),
+        case("zed", [fn("p5", {"a": Z, "b": ZA, "rest": ZAB, "k": INT, "kw": STR}), fn("f0", {"a": Z})], "w7:all parameter kinds"),
+        case("foo", [fn("f0", {"a": SHAPE})], "w7:module path with a typing component, bare"),
+        case("foo", [fn("g3", {"a": SHAPE, "b": Z, "c": BAZ}, SHAPE)], "w7:module path with a typing component, bare"),
+        case("zed.typing", [fn("f1", {"a": SHAPE, "b": SHAPE}, SHAPE)], "w7:module path with a typing component, own"),
+        case("zed", [fn("z0", {}, SHAPE)], "w7:module path with a typing component, package target"),
+        case("foo", [fn("f0", {"a": L(SHAPE)})], "x:typing component in a generic"),
+    ]
     # --- every typing name at every kind of position, as the ONLY annotation of the module stub: whatever the text uses
     #     must be imported because of this one position (imports are merged module-wide, so any second user masks a miss) ---
     kinds = {"List": L(INT), "Set": S(INT), "Dict": D(STR, INT), "DefaultDict": DD(STR, INT), "Tuple": T(INT, STR), "Tuple0": T(),
@@ -298,7 +317,7 @@ class Gen:
             for c in classes:
                 m, q = POOL[c]
                 root = q.split(".")[0]
-                if c in EXOTIC or (root in seen and (m, root) not in seen) or (m != own and root in own_roots) or m == "mytyping":
+                if c in EXOTIC or (root in seen and (m, root) not in seen) or (m != own and root in own_roots) or "typing" in m:
                     continue
                 seen.add(root)
                 seen.add((m, root))
